@@ -1,6 +1,14 @@
 (* Basic facts used by the preservation proof of AppInv: claim chains, frames of a claim, memory updates. *)
-Require Import V.Base.MachineInt V.Generated.GenConsts V.Model.LogBase V.Model.Descriptor V.Proofs.DescriptorProofs
-               V.Model.Sched V.Model.AppenderThreads V.Proofs.TailArith V.Proofs.FragArith V.Proofs.AppenderInv.
+Require Import V.Base.MachineInt.
+Require Import V.Generated.GenConsts.
+Require Import V.Model.LogBase.
+Require Import V.Model.Descriptor.
+Require Import V.Proofs.DescriptorProofs.
+Require Import V.Model.Sched.
+Require Import V.Model.AppenderThreads.
+Require Import V.Proofs.TailArith.
+Require Import V.Proofs.FragArith.
+Require Import V.Proofs.AppenderInv.
 From Coq Require Import ZifyBool.
 Open Scope Z_scope.
 
